@@ -97,9 +97,14 @@ Definition has_bad_domain (t : top) (i : intf) : bool :=
   negb (forallb domain_ok (match cv_unwrap_or (i_dnssl i) (t_dns_search t) with Some v => v | None => [] end)).
 
 (* the loader refuses what cannot be advertised (kind 2) *)
+(* MAX_CAPTIVE_PORTAL_OCTETS: 255 * 8 - 2 octets of URL is all the Captive-Portal option can carry *)
+Definition url_fits (u : list N) : bool := lenN u <=? 2038.
+Definition loader_rejects_top (t : top) : bool :=
+  match t_captive t with Some u => negb (url_fits u) | None => false end.
 Definition loader_rejects (i : intf) : bool :=
   existsb (fun p => 128 <? p_len p) (i_prefixes i)
-  || match i_pref64 i with Some p => negb (nat64_len_ok (n_len p)) | None => false end.
+  || match i_pref64 i with Some p => negb (nat64_len_ok (n_len p)) | None => false end
+  || match i_captive i with Value u => negb (url_fits u) | _ => false end.
 
 (* tags: which options the advertisement carries, as a bit set
    1 prefixes, 2 rdnss, 4 dnssl, 8 pref64, 16 captive, 32 some value was clamped, 64 loaded from YAML,
@@ -129,7 +134,7 @@ Definition check_cfg (kind : N) (t : top) (i : intf) (e : env) (impl : list N) :
   | 0 :: r =>
     match tok_bytes r with
     | Some (b, []) =>
-      if (kind =? 2) && loader_rejects i then viol 6          (* advertised what should have been refused *)
+      if (kind =? 2) && (loader_rejects i || loader_rejects_top t) then viol 6          (* advertised what should have been refused *)
       else if negb (lengths_ok b) then viol 2
       else if negb (reserved_zero b) then viol 3
       else
@@ -143,7 +148,7 @@ Definition check_cfg (kind : N) (t : top) (i : intf) (e : env) (impl : list N) :
     | _ => v_bad
     end
   | [2] => if wf_cfg t i e then viol 5 else if list_eqb N.eqb impl model then v_ok 201 else v_diff model
-  | [3] => if (kind =? 2) && loader_rejects i then v_ok 200 else v_diff model
+  | [3] => if (kind =? 2) && (loader_rejects i || loader_rejects_top t) then v_ok 200 else v_diff model
   | _ => v_bad
   end.
 
